@@ -158,6 +158,7 @@ type fileCtx struct {
 	changed   bool
 	tmp       int
 	skip      map[ast.Stmt]bool // comm statements of rewritten selects: already preceded by Select
+	doneSel   map[*ast.SelectStmt]bool
 }
 
 func rewriteFile(path, rel string) ([]byte, bool, error) {
@@ -166,7 +167,7 @@ func rewriteFile(path, rel string) ([]byte, bool, error) {
 	if err != nil {
 		return nil, false, err
 	}
-	c := &fileCtx{fset: fset, f: f, rel: rel, skip: map[ast.Stmt]bool{}}
+	c := &fileCtx{fset: fset, f: f, rel: rel, skip: map[ast.Stmt]bool{}, doneSel: map[*ast.SelectStmt]bool{}}
 	pkgDir := filepath.Dir(rel)
 
 	for _, im := range f.Imports {
@@ -420,12 +421,26 @@ func (c *fileCtx) rewriteGo(st *ast.GoStmt) ast.Stmt {
 // case 2: c <- x; C
 // }
 func (c *fileCtx) rewriteSelect(st *ast.SelectStmt) ast.Stmt {
+	if c.doneSel[st] {
+		return nil // a non-blocking select that already got its scheduling point (it is visited again inside the block)
+	}
 	var cases []ast.Expr
 	var clauses []ast.Stmt
 	for i, cl := range st.Body.List {
 		cc := cl.(*ast.CommClause)
 		if cc.Comm == nil {
-			return nil // has default: non-blocking, left alone
+			// has default: non-blocking. The statement stays as it is, preceded by a scheduling point (another
+			// thread may fill or drain the channels first).
+			for _, cl2 := range st.Body.List {
+				if cm := cl2.(*ast.CommClause).Comm; cm != nil {
+					c.skip[cm] = true
+				}
+			}
+			c.needSched, c.changed = true, true
+			c.doneSel[st] = true
+			rep.Rewrites["select-default"]++
+			yield := &ast.ExprStmt{X: call(sel("zzvsched", "Yield"), &ast.BasicLit{Kind: token.STRING, Value: strconv.Quote("select-default")})}
+			return &ast.BlockStmt{List: []ast.Stmt{yield, st}}
 		}
 		var chExpr ast.Expr
 		var kind string
